@@ -257,7 +257,7 @@ ExecNode(pr, prefix, nd, args, st, step, mode) ==
   LET path == Path(prefix, nd.name)
       idx  == Get(st.w.ctr, path, 0) + 1
       call == [path |-> path, frame |-> prefix, node |-> nd.name, step |-> step,
-               idx |-> idx, args |-> CallArgs(args),
+               idx |-> idx, args |-> CallArgs(args), kind |-> nd.kind,
                dec |-> IF IsGate(nd) /\ idx \notin Names(nd.fail_at)
                        THEN Decide(nd, RawDecision(nd, idx)) ELSE NoDec]
       w1   == [st.w EXCEPT !.ctr = Put(st.w.ctr, path, idx), !.calls = st.w.calls \o <<call>>]
@@ -265,7 +265,7 @@ ExecNode(pr, prefix, nd, args, st, step, mode) ==
   IN
   IF IsGraph(nd) THEN
      LET inner == [i \in 1..Len(args) |-> <<InnerName(nd, args[i][1]), args[i][3]>>]
-         r == RunProg(nd.sub, path, inner, st.w, mode)
+         r == RunProg(nd.sub, path, inner, w1, mode)
      IN IF r.status = "completed" THEN
            LET rv == FilterOut(nd.sub, r.vals, Unset)
                present == SelectSeq(nd.outmap, LAMBDA pair : pair[1] \in DOMAIN rv)
